@@ -8,3 +8,31 @@ Open Scope N_scope.
 Theorem C04_failure_is_atomic `{Sig} : forall fa st o e, fst (step2 fa st o) = RErr e -> snd (step2 fa st o) = st.
 Proof. exact step2_err_noop. Qed.
 Print Assumptions C04_failure_is_atomic.
+
+(** Topology clause, for every store, every dart pair, every attribute law and fault position: a sew / unsew
+    that terminates normally has exactly the effect of the corresponding link / unlink on the images and removal
+    flags of every dart ([topo_eq]: equal images and flags at every identifier), and that link / unlink succeeds. *)
+From HC Require Import Map2.Wf2Proofs Map2.SewTopo.
+Theorem C04_one_sew_topology `{Sig} : forall E n ks l r c w cnt w1 cnt1,
+  run E (one_sew n ks l r) c w cnt = (Done tt, w1, cnt1) ->
+  exists w2, run E (one_link_core l r) c w cnt = (Done tt, w2, cnt) /\ topo_eq w2 w1.
+Proof. exact one_sew_topology. Qed.
+Print Assumptions C04_one_sew_topology.
+
+Theorem C04_two_sew_topology `{Sig} : forall E n ks l r c w cnt w1 cnt1,
+  run E (two_sew n ks l r) c w cnt = (Done tt, w1, cnt1) ->
+  exists w2, run E (two_link_core l r) c w cnt = (Done tt, w2, cnt) /\ topo_eq w2 w1.
+Proof. exact two_sew_topology. Qed.
+Print Assumptions C04_two_sew_topology.
+
+Theorem C04_one_unsew_topology `{Sig} : forall E n ks l c w cnt w1 cnt1,
+  run E (one_unsew n ks l) c w cnt = (Done tt, w1, cnt1) ->
+  exists w2, run E (one_unlink_core l) c w cnt = (Done tt, w2, cnt) /\ topo_eq w2 w1.
+Proof. exact one_unsew_topology. Qed.
+Print Assumptions C04_one_unsew_topology.
+
+Theorem C04_two_unsew_topology `{Sig} : forall E n ks l c w cnt w1 cnt1,
+  run E (two_unsew n ks l) c w cnt = (Done tt, w1, cnt1) ->
+  exists w2, run E (two_unlink_core l) c w cnt = (Done tt, w2, cnt) /\ topo_eq w2 w1.
+Proof. exact two_unsew_topology. Qed.
+Print Assumptions C04_two_unsew_topology.
